@@ -317,6 +317,16 @@ Fixpoint verdicts (c : cfg) (Q : queues) (rs : list req) : list verdict :=
   | r :: rest => verdict_of c Q r :: verdicts c (apply_if_admitted c Q r) rest
   end.
 
+(* ---------- scheduler side: pkg/scheduler/plugins/capacity/capacity.go 1212-1231, 1452-1485 ----------
+   buildHierarchicalQueueAttrs aborts (every function of the plugin then rejects) when
+   updateAncestors fails for some queue: its parent ("" standing for root) is not among the
+   session's queues.  (updateAncestors also has a cycle test on its recursion path; it consults
+   the already-built queueOpts first, so on the queue sets reached here only the missing parent
+   is observable.) *)
+Definition capacity_ready (Q : queues) : bool :=
+  map_allb (fun n s => bool_decide (n = root) ||
+                       bool_decide (is_Some (Q !! default root (qparent s)))) Q.
+
 (* ---------- the validation as it was BEFORE the fix (kept for the record) ---------- *)
 
 Fixpoint depth_walk_prefix (rem : nat) (Q : queues) (parent : option positive) : verdict + nat :=
